@@ -1179,8 +1179,79 @@ def un_json(x):
     return x
 
 
+MISSING_ARG_CASES = [
+    # (name, leaf class, keywords given): one REQUIRED keyword of one level is missing
+    ('child-level', 'Chi', {'a': 5}),
+    ('root-level', 'Chi', {'b': 5}),
+    ('leaf-level of three', 'Gra', {'a': 5, 'b': 5}),
+    ('mid-level of three', 'Gra', {'a': 5, 'g': 5}),
+    ('root-level of three', 'Gra', {'b': 5, 'g': 5}),
+]
+
+
+def missing_argument_case(vi, level, leaf, kw, mode):
+    """an inheritable create with a missing required keyword raises TypeError; afterwards nothing is left behind:
+    no row at any level, no registered instance.  mode 'plain': default connection (in-memory);
+    'transaction': FILE database, `connection=<Transaction>`, and the application COMMITS afterwards (it caught the
+    TypeError and goes on).  Returns (outcome, problems)."""
+    v = variant(vi)
+    hist = [mk_chain(v, 1, 1, 1), mk_child(v, 2, 2)]
+    env = build(vi, hist, TX_OPTS if mode == 'transaction' else None, tmp_path() if mode == 'transaction' else None)
+    chain = [v.idx[n] for n in ('Par', 'Chi', 'Gra')]
+    cache_owner = env.conn
+    ckw = {}
+    if mode == 'transaction':
+        env.trans = env.conn.transaction()
+        cache_owner = env.trans
+        ckw = {'connection': env.trans}
+
+    def state():
+        d = env.dump() if mode == 'transaction' else dict(env.dump(), I=[])
+        reg = sorted((c, o.id) for c in chain for o in cache_owner.cache.getAll(v.classes[c]))
+        return d['T'], d['L'], reg
+    before = state()
+    env.conn.arm(None)
+    try:
+        v.classes[v.idx[leaf]](**dict(kw, **ckw))
+        out = 'ok'
+    except BaseException as e:
+        out = err_name(e)
+    if mode == 'transaction':
+        env.trans.commit()
+    after = state()
+    probs = []
+    if out != 'TypeError':
+        probs.append('expected TypeError for the missing keyword, got %s' % out)
+    if after[0] != before[0]:
+        probs.append('rows left behind%s: %s' % (' (committed with the transaction)' if mode == 'transaction' else '', diff(before[0], after[0])))
+    if after[2] != before[2]:
+        probs.append('registered instances changed: %s' % diff(before[2], after[2]))
+    env.close() if mode == 'transaction' else None
+    return out, probs
+
+
+def run_missing_argument_cases(ctx):
+    for vi in range(len(ORDERS)):
+        for level, leaf, kw in MISSING_ARG_CASES:
+            for mode in ('plain', 'transaction'):
+                try:
+                    out, probs = missing_argument_case(vi, level, leaf, kw, mode)
+                except Exception as e:
+                    ctx.note('missing-argument case %s/%s could not be run: %r' % (level, mode, e))
+                    continue
+                ctx.case(('missing-arg', vi, level, mode), nontrivial=True, kind='inheritable-create-missing-argument/%s/%s' % (mode, out))
+                if probs:
+                    # judged apart from the listed database-error findings of inheritable create: a missing-argument
+                    # TypeError is raised before any INSERT on the unchanged tree
+                    ctx.oracle_fail('C06:unexpected:inheritable-create-missing-argument:%s:%s' % (level.replace(' ', '-'), mode),
+                                    '%s(%s) with a required keyword missing (%s, %s) raised %s but: %s'
+                                    % (leaf, ', '.join('%s=%r' % x for x in sorted(kw.items())), level, mode, out, '; '.join(probs)),
+                                    {'missing_arg': True, 'variant': vi, 'level': level, 'leaf': leaf, 'kw': kw, 'mode': mode})
+
+
 def run(ctx):
     sqlo.setup()
+    run_missing_argument_cases(ctx)
     cases = []
     for name, vi, hist, op in load_corpus():
         cases.append(('corpus:' + name, vi, hist, op))
@@ -1366,6 +1437,13 @@ def run_tx_case(ctx, cname, vi, hist, op, seen_keys):
 
 def replay(case):
     sqlo.setup()
+    if case.get('missing_arg'):
+        out, probs = missing_argument_case(case['variant'], case['level'], case['leaf'], case['kw'], case['mode'])
+        text = ['%s(**%r) on the %s: one required keyword (%s) is missing' % (case['leaf'], case['kw'],
+                'default connection' if case['mode'] == 'plain' else 'FILE database through a Transaction that is committed afterwards', case['level']),
+                'outcome: %s' % out]
+        text += ['PROPERTY FAILS: ' + p for p in probs] or ['property holds for this case']
+        return (not probs), '\n'.join(text)
     vi, hist, op = case['variant'], case['history'], case['op']
     if case.get('sidetx'):
         class _C(object):
